@@ -244,7 +244,7 @@ theorem sendBundle_ok_booked (env : Env) (b : Bundle) (n : Node) (hfresh : n.sto
   intro p hmem hns
   unfold sendBundle at hmem ⊢
   simp only at hmem ⊢
-  rcases seqStep n.cfg.seqFirst b n hidk with ⟨x, hx, hx0⟩
+  rcases seqStep n.cfg.seqFirst b n hidk hfresh with ⟨x, hx, hx0⟩
   rw [hx] at hmem ⊢
   simp only at hmem ⊢
   have hnd : newDesc (n.setIdk x) b.key = { key := b.key, receiver := none, cons := Cons.empty, bndl := none } := by
@@ -280,8 +280,8 @@ theorem submit_gen (env : Env) (EB : Bundle → Eid → Prop) (hEB : EClass EB) 
     (hidk : lookupNat n.idk (b.src, b.ts) = none ∧ b.seq = 0) (hE : ∀ e, ¬ EB b e) :
     GenInv EB c (sendBundle env b n).1 ∧
     ∀ o ∈ (sendBundle env b n).2, OutOk EB c o ∧ OkB c (sendBundle env b n).1 o := by
-  have hstep := sendBundle_kstep env b n w hidk
-  have hb := sendBundle_bstep env b n hidk
+  have hstep := sendBundle_kstep env b n w hidk hfresh
+  have hb := sendBundle_bstep env b n hidk hfresh
   constructor
   · intro k it' hg' hrep e he
     by_cases hk : k = b.key
@@ -567,14 +567,14 @@ theorem transmit_cons (env : Env) (d : Desc) (b : Bundle) (n : Node) (it : Item)
 theorem sendBundle_cons (env : Env) (b : Bundle) (n : Node) (w : WF n) (hfix : n.cfg.holdFix = true)
     (hc : ConsInv n) (hfresh : n.store.get b.key = none)
     (hidk : lookupNat n.idk (b.src, b.ts) = none ∧ b.seq = 0) : ConsInv (sendBundle env b n).1 := by
-  have hstep := sendBundle_kstep env b n w hidk
+  have hstep := sendBundle_kstep env b n w hidk hfresh
   intro k it' hg'
   by_cases hk : k = b.key
   · subst hk
     revert hg'
     unfold sendBundle
     simp only
-    rcases seqStep n.cfg.seqFirst b n hidk with ⟨x, hx, hx0⟩
+    rcases seqStep n.cfg.seqFirst b n hidk hfresh with ⟨x, hx, hx0⟩
     rw [hx]
     simp only
     have hnd : newDesc (n.setIdk x) b.key = { key := b.key, receiver := none, cons := Cons.empty, bndl := none } := by
@@ -729,11 +729,16 @@ theorem prov_sub {past : List Event} {ev : Event} {n n' : Node} (hp : Prov past 
 
 /-! ## never twice, along every history -/
 
-/-- The peers that got the bundle (with this tag) successfully by the algorithm's choice. -/
-def EBd (S : List (Nat × Eid)) (b : Bundle) (e : Eid) : Prop := (b.tag, e) ∈ S ∧ e.sameNode b.dst = false
+/-- The peers that got the bundle (this tag and sequence number) successfully by the algorithm's choice. -/
+def EBd (S : List (Nat × Nat × Eid)) (b : Bundle) (e : Eid) : Prop :=
+  (b.tag, b.seq, e) ∈ S ∧ e.sameNode b.dst = false
 
-theorem EBd_class (S : List (Nat × Eid)) : EClass (EBd S) :=
-  ⟨fun a b h => by funext e; unfold EBd; rw [h.1, h.2.2.2], fun _ _ h => h.2⟩
+theorem EBd_class (S : List (Nat × Nat × Eid)) : EClass (EBd S) :=
+  ⟨fun a b h => by
+      funext e; unfold EBd
+      have hs : b.seq = a.seq := congrArg Key.seq h.2.1
+      rw [h.1, h.2.2.2, hs],
+   fun _ _ h => h.2⟩
 
 /-- `Domain13` plus: the tag names the concrete bundle (two different bundles of the history carry
 different tags; the same bundle may be delivered or submitted again). -/
@@ -752,15 +757,11 @@ structure DCore (c : Cfg) (past : List Event) (s : SpecSt) (ev : Event) (m : Nod
   wf : WF m
   prov : Prov (past ++ [ev]) m
   cons : ConsInv m
-  gen : GenInv (EBd (okSentBefore s ev)) c m
-  outs : ∀ o ∈ outs, OutOk (EBd (okSentBefore s ev)) c o ∧ OkB c m o ∧
+  gen : GenInv (EBd s.okSent) c m
+  outs : ∀ o ∈ outs, OutOk (EBd s.okSent) c o ∧ OkB c m o ∧
     ∀ p b ok, o = Output.sent p b ok → ∃ e, evBundle (past ++ [ev]) e ∧ Like e b
 
-theorem okSentBefore_sub (s : SpecSt) (ev : Event) : ∀ te ∈ okSentBefore s ev, te ∈ s.okSent := by
-  intro te h
-  cases ev <;> simp only [okSentBefore] at h <;> first | exact h | exact (List.mem_filter.mp h).1
-
-theorem genInv_mono {S S' : List (Nat × Eid)} {c : Cfg} {n : Node} (h : GenInv (EBd S') c n)
+theorem genInv_mono {S S' : List (Nat × Nat × Eid)} {c : Cfg} {n : Node} (h : GenInv (EBd S') c n)
     (hs : ∀ te ∈ S, te ∈ S') : GenInv (EBd S) c n :=
   fun k it hg hrep e he => h k it hg hrep e ⟨hs _ he.1, he.2⟩
 
@@ -802,8 +803,7 @@ theorem dup_of_core (c : Cfg) (env : Env) (past fut : List Event) (ev : Event) (
     rcases mem_chosen hpbk with ⟨hm, hns, hrep⟩
     simp only [obsOf] at hm
     have := (hcore.outs _ (hsent _ _ _ hm)).1 pbk.1 pbk.2.1 pbk.2.2 rfl hns hrep
-    have hnot : (pbk.2.1.tag, pbk.1.eid) ∉ okSentBefore s ev := fun h => this ⟨h, hns⟩
-    simp only [obsOf]
+    have hnot : (pbk.2.1.tag, pbk.2.1.seq, pbk.1.eid) ∉ s.okSent := fun h => this ⟨h, hns⟩
     simp [hnot]
   · refine ⟨?_, ?_, ?_, ?_⟩
     · intro k it hg; rw [hstore] at hg; exact hcore.prov k it hg
@@ -812,14 +812,14 @@ theorem dup_of_core (c : Cfg) (env : Env) (past fut : List Event) (ev : Event) (
       intro k it hg hrep e he
       rw [hstore] at hg
       apply hbooked
-      have hmem : (it.bundle.tag, e) ∈ okSentAfter c s (obsOf (ev, (step env n ev).2, (step env n ev).1)) := he.1
+      have hmem : (it.bundle.tag, it.bundle.seq, e) ∈ okSentAfter c s (obsOf (ev, (step env n ev).2, (step env n ev).1)) := he.1
       unfold okSentAfter at hmem
       rcases List.mem_append.mp (List.mem_filter.mp hmem).1 with h | h
       · exact hcore.gen k it hg hrep e ⟨h, he.2⟩
       · rcases List.mem_filterMap.mp h with ⟨pbk, hpbk, hf⟩
         split at hf
         · rename_i hok
-          have heq2 : (pbk.2.1.tag, pbk.1.eid) = (it.bundle.tag, e) := Option.some.inj hf
+          have heq2 : (pbk.2.1.tag, pbk.2.1.seq, pbk.1.eid) = (it.bundle.tag, it.bundle.seq, e) := Option.some.inj hf
           rcases mem_chosen hpbk with ⟨hm, hns, hrepb⟩
           simp only [obsOf] at hm
           rw [hok] at hm
@@ -841,7 +841,7 @@ theorem dup_of_core (c : Cfg) (env : Env) (past fut : List Event) (ev : Event) (
           have heq := hdom.tags e1 e2 (hpast _ he1) (hpast _ he2) htag
           have hk : k = pbk.2.1.key := by
             rw [← hcore.wf.keyed k it hg, hl1.2.1, heq, ← hl2.2.1]
-          rw [hk, ← (Prod.mk.inj heq2).2]
+          rw [hk, ← (Prod.mk.inj (Prod.mk.inj heq2).2).2]
           exact hb
         · cases hf
     · intro te hte
@@ -851,7 +851,7 @@ theorem dup_of_core (c : Cfg) (env : Env) (past fut : List Event) (ev : Event) (
       rcases List.any_eq_true.mp this with ⟨i, hi, hti⟩
       simp only [obsOf, viewOf] at hi
       rcases List.mem_map.mp hi with ⟨⟨k, it⟩, hkv, rfl⟩
-      refine ⟨k, it, ?_, by simpa [itemView] using hti⟩
+      refine ⟨k, it, ?_, by have := hti; simp only [itemView, Bool.and_eq_true, beq_iff_eq] at this; exact this.1⟩
       rw [hstore]
       exact Store.get_of_mem hcore.wf.nodup hkv
 
@@ -884,13 +884,11 @@ theorem genInv_storeSame (EB : Bundle → Eid → Prop) (c : Cfg) (n m : Node) (
 
 theorem dcore_checkPending (c : Cfg) (hfix : c.holdFix = true) (env : Env) (past : List Event) (s : SpecSt)
     (n n1 : Node) (ev : Event) (inv : RInv c past s n) (di : DInv c past s n)
-    (hs : n1.store = n.store) (hcfg : n1.cfg = n.cfg) (hsp : n1.spray = n.spray)
-    (hev : okSentBefore s ev = s.okSent) :
+    (hs : n1.store = n.store) (hcfg : n1.cfg = n.cfg) (hsp : n1.spray = n.spray) :
     DCore c past s ev (checkPending env n1).1 (checkPending env n1).2 := by
   have w1 : WF n1 := ⟨by rw [hs]; exact inv.wf.keyed, by rw [hs]; exact inv.wf.nodup⟩
   have hc1 : n1.cfg = c := hcfg.trans inv.cfg
-  have hg1 : GenInv (EBd (okSentBefore s ev)) c n1 := by
-    rw [hev]; exact genInv_storeSame _ c n n1 di.dup hs hcfg (Or.inl hsp)
+  have hg1 : GenInv (EBd s.okSent) c n1 := genInv_storeSame _ c n n1 di.dup hs hcfg (Or.inl hsp)
   unfold checkPending
   rcases dispatchKeys_kstep env (pendingKeys n1.store) n1 w1 with ⟨w', _, _, _, _⟩
   rcases dispatchKeys_gen env _ (EBd_class _) c (pendingKeys n1.store) n1 (pendingKeys_nodup w1) w1 hc1 hg1 with ⟨hg2, ho2⟩
@@ -913,11 +911,11 @@ theorem dcore_checkPending (c : Cfg) (hfix : c.holdFix = true) (env : Env) (past
 
 theorem dcore_storeSame (c : Cfg) (past : List Event) (s : SpecSt) (n m : Node) (ev : Event)
     (inv : RInv c past s n) (di : DInv c past s n) (hs : m.store = n.store) (hc : m.cfg = n.cfg)
-    (hsp : m.spray = n.spray ∨ m.spray = []) (hev : okSentBefore s ev = s.okSent) : DCore c past s ev m [] := by
+    (hsp : m.spray = n.spray ∨ m.spray = []) : DCore c past s ev m [] := by
   refine ⟨⟨by rw [hs]; exact inv.wf.keyed, by rw [hs]; exact inv.wf.nodup⟩, ?_, ?_, ?_, fun o ho => by cases ho⟩
   · exact prov_sub di.prov (fun k it' hg' => ⟨it', by rw [hs] at hg'; exact hg', Like.refl _⟩)
   · intro k it hg; rw [hs] at hg; exact di.cons k it hg
-  · rw [hev]; exact genInv_storeSame _ c n m di.dup hs hc hsp
+  · exact genInv_storeSame _ c n m di.dup hs hc hsp
 
 
 theorem dcore_submit (c : Cfg) (hfix : c.holdFix = true) (env : Env) (past fut : List Event) (b : Bundle)
@@ -925,17 +923,27 @@ theorem dcore_submit (c : Cfg) (hfix : c.holdFix = true) (env : Env) (past fut :
     (inv : RInv c past s n) (di : DInv c past s n) :
     DCore c past s (.submit b) (stepCore env n (.submit b)).1 (stepCore env n (.submit b)).2 := by
   have hf := submit_fresh c past fut b hdom.d13.dom s n inv
-  have hstep := sendBundle_kstep env b n inv.wf hf.2
-  have hbs := sendBundle_bstep env b n hf.2
+  have hstep := sendBundle_kstep env b n inv.wf hf.2 hf.1
+  have hbs := sendBundle_bstep env b n hf.2 hf.1
   have hbnew : evBundle (past ++ [.submit b]) b := by
     left; rw [submitted_append]; exact List.mem_append_right _ List.mem_cons_self
-  have hE : ∀ e, ¬ EBd (okSentBefore s (.submit b)) b e := by
+  have hball : evBundle (past ++ .submit b :: fut) b := by
+    left; rw [submitted_append]; exact List.mem_append_right _ List.mem_cons_self
+  have hpast : ∀ x, evBundle past x → evBundle (past ++ .submit b :: fut) x := by
+    intro x hx
+    rcases hx with hx | hx
+    · left; rw [submitted_append]; exact List.mem_append_left _ hx
+    · right; rw [received_append]; exact List.mem_append_left _ hx
+  -- a bundle with a new ID has no remembered transmissions: a remembered one is still stored, under this ID
+  have hE : ∀ e, ¬ EBd s.okSent b e := by
     intro e he
-    have := he.1
-    simp only [okSentBefore] at this
-    have := (List.mem_filter.mp this).2
-    simp at this
-  have hg0 : GenInv (EBd (okSentBefore s (.submit b))) c n := genInv_mono di.dup (okSentBefore_sub s _)
+    rcases di.live _ he.1 with ⟨k, it, hg, htag⟩
+    rcases di.prov k it hg with ⟨e1, he1, hl1⟩
+    have heq : e1 = b := hdom.tags e1 b (hpast _ he1) hball (by rw [← hl1.1]; exact htag)
+    have hk : k = b.key := by rw [← inv.wf.keyed k it hg, hl1.2.1, heq]
+    rw [hk, hf.1] at hg
+    cases hg
+  have hg0 : GenInv (EBd s.okSent) c n := di.dup
   rcases submit_gen env _ (EBd_class _) c b n inv.wf inv.cfg hg0 hf.1 hf.2 hE with ⟨hg2, ho2⟩
   simp only [stepCore]
   refine ⟨hstep.wf inv.wf, prov_touch di.prov hbnew hbs.1 hstep.other,
@@ -963,10 +971,9 @@ theorem dcore_receive (c : Cfg) (hfix : c.holdFix = true) (env : Env) (past fut 
     rcases hx with hx | hx
     · left; rw [submitted_append]; exact List.mem_append_left _ hx
     · right; rw [received_append]; exact List.mem_append_left _ hx
-  have hev : okSentBefore s (.receive b r) = s.okSent := rfl
   -- a bundle the node does not know has no remembered transmissions
   have hseed : (newDesc n b.key).cons.isEmpty = true →
-      ∀ m itm, m.store.get b.key = some itm → m.cfg = c → ∀ e, EBd (okSentBefore s (.receive b r)) b e →
+      ∀ m itm, m.store.get b.key = some itm → m.cfg = c → ∀ e, EBd s.okSent b e →
         Booked (notifyNew b.key b m) b.key e := by
     intro hemp m itm _ _ e he
     exfalso
@@ -977,13 +984,13 @@ theorem dcore_receive (c : Cfg) (hfix : c.holdFix = true) (env : Env) (past fut 
         have := di.cons _ it hg
         rw [newDesc_cons n b.key it hg, this] at hemp
         cases hemp
-    rcases di.live _ (by rw [← hev]; exact he.1) with ⟨k, it, hg, htag⟩
+    rcases di.live _ he.1 with ⟨k, it, hg, htag⟩
     rcases di.prov k it hg with ⟨e1, he1, hl1⟩
     have heq : e1 = b := hdom.tags e1 b (hpast _ he1) hball (by rw [← hl1.1]; exact htag)
     have hk : k = b.key := by rw [← inv.wf.keyed k it hg, hl1.2.1, heq]
     rw [hk, hnone] at hg
     cases hg
-  have hg0 : GenInv (EBd (okSentBefore s (.receive b r))) c n := by rw [hev]; exact di.dup
+  have hg0 : GenInv (EBd s.okSent) c n := di.dup
   rcases receive_gen env _ (EBd_class _) c b r n inv.wf inv.cfg hg0 hseed with ⟨hg2, ho2⟩
   simp only [stepCore]
   refine ⟨hstep.wf inv.wf, prov_touch di.prov hbnew (receive_bstep env b r n) hstep.only.other,
@@ -1047,12 +1054,12 @@ theorem dup_step (c : Cfg) (hfix : c.holdFix = true) (env : Env) (past fut : Lis
   | peerUp p =>
     simp only [stepCore]
     split
-    · exact dcore_checkPending c hfix env past s n n (.peerUp p) inv di rfl rfl rfl rfl
-    · exact dcore_checkPending c hfix env past s n _ (.peerUp p) inv di rfl rfl rfl rfl
-  | peerDown a => exact dcore_storeSame c past s n _ (.peerDown a) inv di rfl rfl (Or.inl rfl) rfl
-  | retryTick => exact dcore_checkPending c hfix env past s n n .retryTick inv di rfl rfl rfl rfl
+    · exact dcore_checkPending c hfix env past s n n (.peerUp p) inv di rfl rfl rfl
+    · exact dcore_checkPending c hfix env past s n _ (.peerUp p) inv di rfl rfl rfl
+  | peerDown a => exact dcore_storeSame c past s n _ (.peerDown a) inv di rfl rfl (Or.inl rfl)
+  | retryTick => exact dcore_checkPending c hfix env past s n n .retryTick inv di rfl rfl rfl
   | cleanTick t => exact dcore_cleanTick c env past s n t inv di
-  | restart => exact dcore_storeSame c past s n _ .restart inv di rfl rfl (Or.inr rfl) rfl
+  | restart => exact dcore_storeSame c past s n _ .restart inv di rfl rfl (Or.inr rfl)
 
 theorem dup_run (c : Cfg) (hfix : c.holdFix = true) (hexp : c.expiryNow = true) (env : Env) :
     ∀ (fut past : List Event) (s : SpecSt) (n : Node) (i : Nat), Domain13t c (past ++ fut) → RInv c past s n →
